@@ -43,7 +43,8 @@ fn ops(c: &mut Cur, max: usize) -> Vec<Op> {
     while !c.done() && out.len() < max {
         let b = c.u8();
         out.push(match b % 18 {
-            0..=7 => Op::Add(match c.u8() % 9 {
+            0..=7 => Op::Add(match c.u8() % 10 {
+                9 => AddKind::ZeroBurst(c.u8() % 40),
                 8 => AddKind::Huge(c.u8() % 8),
                 0 => AddKind::Zero,
                 1 => AddKind::TieWithPending(c.u16()),
@@ -198,4 +199,87 @@ pub fn report_text(id: &str, text: &str, f: &Failure) {
     let path = dir.join(format!("fuzz-{:016x}.yml", hash_of(text)));
     let _ = std::fs::write(&path, text);
     eprintln!("FUZZ-VIOLATION property={id} replay={} signature={}", path.display(), f.sig);
+}
+
+// ------------------------------------------------------------------------------------------
+// generic target: the fuzzer's bytes are the random stream of the property's own proptest strategy
+
+fn go<P: crate::engine::Prop>(data: &[u8]) {
+    use proptest::strategy::{Strategy, ValueTree};
+    use proptest::test_runner::{Config, RngAlgorithm, TestRng, TestRunner};
+    thread_local! {
+        static KNOWN: std::cell::RefCell<Option<Vec<String>>> = const { std::cell::RefCell::new(None) };
+    }
+    // proptest's pass-through RNG hands out the input bytes in order and zeros after the end; an all-zero stream makes
+    // rand's rejection sampling spin forever, so the input is continued by a fixed pseudo-random tail (256 KiB, more
+    // than any case draws)
+    static TAIL: std::sync::OnceLock<Vec<u8>> = std::sync::OnceLock::new();
+    let tail = TAIL.get_or_init(|| crate::fuzz::random_seeds(0x7461_696c, 1, 1 << 18).pop().unwrap_or_default());
+    let mut stream = Vec::with_capacity(data.len() + tail.len());
+    stream.extend_from_slice(data);
+    stream.extend_from_slice(tail);
+    if std::env::var_os("VERIF_FUZZ_DEBUG").is_some() {
+        eprintln!("prop_bytes: data {} bytes, tail {} bytes, stream {} bytes, first {:?}", data.len(), tail.len(), stream.len(), &stream[..8.min(stream.len())]);
+    }
+    let rng = TestRng::from_seed(RngAlgorithm::PassThrough, &stream);
+    let cfg = Config {
+        failure_persistence: None,
+        ..Config::default()
+    };
+    let mut runner = TestRunner::new_with_rng(cfg, rng);
+    let Ok(tree) = P::strategy(crate::engine::Tier::Quick).new_tree(&mut runner) else {
+        return;
+    };
+    let case = tree.current();
+    if std::env::var_os("VERIF_FUZZ_DEBUG").is_some() {
+        eprintln!("prop_bytes: case generated");
+    }
+    let out = crate::engine::run_one::<P>(&case);
+    if std::env::var_os("VERIF_FUZZ_DEBUG").is_some() {
+        eprintln!("prop_bytes: case ran, failed={}", out.fail.is_some());
+    }
+    if let Some(f) = out.fail {
+        let known = KNOWN.with(|k| {
+            k.borrow_mut()
+                .get_or_insert_with(|| crate::engine::known_findings(P::ID).into_iter().filter(|k| k.status == "known").map(|k| k.signature).collect())
+                .contains(&f.sig)
+        });
+        if known {
+            return;
+        }
+        report(P::ID, &case, &f);
+        fail(P::ID, &f);
+    }
+}
+
+/// Entry of the `prop_bytes` target; the property is chosen by the environment variable VERIF_FUZZ_PROP.
+pub fn run_prop_bytes(data: &[u8]) {
+    static ID: std::sync::OnceLock<String> = std::sync::OnceLock::new();
+    let id = ID.get_or_init(|| std::env::var("VERIF_FUZZ_PROP").unwrap_or_default());
+    match id.as_str() {
+        "C01" => go::<c01::C01>(data),
+        "C02" => go::<crate::c02::C02>(data),
+        "C03" => go::<crate::c03::C03>(data),
+        "C04" => go::<crate::c04::C04>(data),
+        "C05" => go::<crate::c05::C05>(data),
+        "C06" => go::<crate::c06::C06>(data),
+        "C07" => go::<crate::c07::C07>(data),
+        "C08" => go::<crate::c08::C08>(data),
+        "C09" => go::<crate::c09::C09>(data),
+        "C10" => go::<crate::c10::C10>(data),
+        "C11" => go::<crate::c11::C11>(data),
+        "C12" => go::<crate::c12::C12>(data),
+        "C13" => go::<crate::c13::C13>(data),
+        "C14" => go::<crate::c14::C14>(data),
+        "C15" => go::<c15::C15>(data),
+        "C16" => go::<crate::c16::C16>(data),
+        "C17" => go::<c17::C17>(data),
+        "C18" => go::<c18::C18>(data),
+        "C19" => go::<crate::c19::C19>(data),
+        "C20" => go::<crate::c20::C20>(data),
+        other => {
+            eprintln!("prop_bytes: VERIF_FUZZ_PROP='{other}' names no property");
+            std::process::abort()
+        }
+    }
 }
